@@ -204,6 +204,19 @@ def gen_cases(rng, thorough):
                 cs.append(Case(proto, b, s, [r1], over=1 if n > db else 0, databytes=db, note="size%d/%d" % (n, db)))
                 if proto == "qmtp":      # DOS format message (CR LF line ends): the limit applies to the converted message
                     cs.append(Case(proto, b, s, [r1], over=1 if n > db else 0, databytes=db, wire_body=b"\r" + b.replace(b"\n", b"\r\n"), note="dossize%d/%d" % (n, db)))
+    # ---- size limit and bytes that take an unusual way through the decoder: k bare CRs (CR followed by neither LF nor CR), CR CR,
+    # dot-stuffed lines - every stored byte counts, so with a stored length of databytes + 1 .. + 3 the message is too large
+    for db in (40, 64):
+        for n in (db - 1, db, db + 1, db + 2, db + 3):
+            for k, piece in ((1, b"a\rb"), (3, b"\rb\rb\rb"), (2, b"\r\rX"), (1, b"\n.dot\n"), (2, b"\n..\n.\rq\n")):
+                head = b"Subject: t\n\n" + piece
+                if len(head) + 1 > n:
+                    continue
+                b = head + b"z" * (n - len(head) - 1) + b"\n"
+                wire = None
+                if b"\n." in b:
+                    wire = b.replace(b"\n.", b"\n..").replace(b"\n", b"\r\n")
+                cs.append(Case("smtp", b, s, [r1], over=1 if n > db else 0, databytes=db, wire_body=wire, note="crsize%d/%d/%d%s" % (n, db, k, piece[:2].hex())))
     # ---- hop limit (SMTP): 98..101 Received / Delivered-To fields in any case
     for k in (0, 1, 98, 99, 100, 101, 150):
         for style in range(3):
